@@ -163,8 +163,8 @@ def getArgNamesQ (c : Content) (f : ArgFlags) : Except Err (List Name) :=
     pure (getArgNames c cache f)
   else pure (getArgNames c default f)
 
-/-- `scope = self._data | raw; for name, ro in self._readouts.items(): ro.calculate_inpl(name, scope);
-    raw[name] = scope[name]` — in declaration order, in place; the readouts see the data sets again
+/-- `scope = self._data | raw; for name in order: self._readouts[name].calculate_inpl(name, scope);
+    raw[name] = scope[name]` — along the given list, in place; the readouts see the data sets again
     (after the repair of F-C01-4), the returned dict does not hold them.  Returns `raw`. -/
 def evalReadouts : List (Name × Fn) → Env → Env → Except Err Env
   | [], _, raw => pure raw
@@ -176,9 +176,23 @@ def evalReadouts : List (Name × Fn) → Env → Env → Except Err Env
 def dropData (dataKeys : List Name) (env : Env) : Env :=
   env.filter fun kv => !dataKeys.contains kv.1
 
-/-- `if include_readouts: …` on the dict `_get_args` returned -/
+/-- `Model._sorted_readouts(set(scope))`: the readouts in dependency order (`_sort_dependencies` over
+    one `Dependency(name, args, {name})` per readout; after the repair of F-C01-3), each with its function -/
+def sortedReadouts (c : Content) (scope : Env) : Except Err (List (Name × Fn)) := do
+  let order ← sortDeps (scope.map (·.1))
+    (c.readouts.map fun kv => { name := kv.1, required := kv.2.args, provided := [kv.1] })
+  order.mapM fun k =>
+    match c.readouts.lookup k with
+    | some f => pure (k, f)
+    | none => .error (.keyError k)
+
+/-- `if include_readouts: …` on the dict `_get_args` returned: the readouts are evaluated in
+    dependency order on `self._data | raw` -/
 def readoutPass (c : Content) (f : ArgFlags) (raw : Env) : Except Err Env :=
-  if f.readouts then evalReadouts c.readouts (raw ++ c.data) raw else pure raw
+  if f.readouts then do
+    let ros ← sortedReadouts c (raw ++ c.data)
+    evalReadouts ros (raw ++ c.data) raw
+  else pure raw
 
 /-- `get_args(variables, time, **flags)`: `pd.Series(raw).loc[get_arg_names(**flags)]` — the selected
     names in `get_arg_names` order, `KeyError` for a selected name the dict does not hold -/
